@@ -5,6 +5,7 @@ package h
 // often is decided per request by the property's PlanFor function.
 
 import (
+	"errors"
 	"fmt"
 	"strings"
 	"sync"
@@ -597,6 +598,9 @@ func (f *ScriptFS) authInv(op string, afid *go9p.SrvFid, args string) *Inv {
 func (f *ScriptFS) authInit(afid *go9p.SrvFid, aname string) (*go9p.Qid, error) {
 	inv := f.authInv("authinit", afid, fmt.Sprintf("aname=%q", aname))
 	if f.AuthInitErr != nil && f.AuthInitErr(inv) {
+		if inv.Seq%2 == 1 {
+			return nil, errors.New("scripted authinit refusal")
+		}
 		return nil, &go9p.Error{Err: "scripted authinit refusal", Errornum: 13}
 	}
 	return &go9p.Qid{Type: go9p.QTAUTH, Version: 1, Path: 0xA000 + uint64(inv.Seq)}, nil
@@ -606,6 +610,9 @@ func (f *ScriptFS) authCheck(fid, afid *go9p.SrvFid, aname string) error {
 	inv := f.authInv("authcheck", afid, fmt.Sprintf("aname=%q", aname))
 	inv.NewfidP = fid
 	if f.AuthCheckErr != nil && f.AuthCheckErr(inv) {
+		if inv.Seq%2 == 1 {
+			return errors.New("scripted authcheck refusal") // an authentication module's own error, not a 9P one
+		}
 		return &go9p.Error{Err: "scripted authcheck refusal", Errornum: 13}
 	}
 	return nil
